@@ -3,6 +3,7 @@ package sim
 import (
 	"errors"
 	"io"
+	"sync/atomic"
 )
 
 // ErrSinkFault is what the simulated destination returns (a full disk).
@@ -18,13 +19,29 @@ type Sink struct {
 	Trace  []int // length of every Write call, in order
 	Fired  int   // number of Write calls that returned a non-nil error
 	failed bool  // persistent fault has fired
+
+	returned atomic.Bool  // the packaging call this sink was handed to has returned
+	late     atomic.Int64 // Write calls that arrived after that
 }
+
+// MarkReturned: the packaging call has returned; the writer is the caller's
+// again. Anything written from now on comes from a goroutine that outlived
+// the call.
+func (s *Sink) MarkReturned() { s.returned.Store(true) }
+
+// LateWrites counts writes that arrived after MarkReturned.
+func (s *Sink) LateWrites() int64 { return s.late.Load() }
 
 func NewSink(f *SinkFault) *Sink { return &Sink{Fault: f} }
 
 func (s *Sink) Bytes() []byte { return s.buf }
 
 func (s *Sink) Write(p []byte) (int, error) {
+	if s.returned.Load() {
+		// not stored, not traced: the buffers belong to the caller now
+		s.late.Add(1)
+		return len(p), nil
+	}
 	if s.Yield != nil {
 		s.Yield("sink.write")
 	}
